@@ -51,6 +51,21 @@ Proof.
 Qed.
 Print Assumptions C03_error_parity_refuted.
 
+(* the same two-fault family, other side (known finding K3): a custom node with MORE children than
+   entries whose child without an entry fails by itself — flatten raises that child's exception,
+   flatten-with-path (which notices the missing entry before it reaches the child) RuntimeError *)
+Theorem C03_error_parity_refuted_with_path :
+  exists c o, wf_obj o = true /\
+              flatten c o = Err (UserExn 26) /\ flatten_with_path c o = Err RuntimeError /\
+              tree_iter_list c o = Err RuntimeError.
+Proof.
+  exists {| c_nil := false; c_ns := 0; c_pred := None;
+            c_reg := [{| rcls := 0; rns := 0; rid := 1; rpet := 0 |}]; c_ins := []; c_limit := 1000 |}.
+  exists (Node (HCustom 0 0 (EGiven [KInt 0; KInt 1])) [Leaf 1; Leaf 2; Node (HCustom 0 2 (ERaise 26)) []]).
+  vm_compute. repeat split.
+Qed.
+Print Assumptions C03_error_parity_refuted_with_path.
+
 Example C03_example :
   let c := {| c_nil := false; c_ns := 0; c_pred := None; c_reg := []; c_ins := []; c_limit := 1000 |} in
   let o := Node (HDict [KStr [98]; KStr [97]]) [Node HTuple [Leaf 1; Leaf 2]; Node HList [Leaf 3]] in
